@@ -72,6 +72,8 @@ def rank(v, env):
 
 
 def run(ctx, chk, tier):
+    own = chk.pid == "C17"   # as a prerequisite of another check the host's own rule text and explanation stay
+    saved = (getattr(chk, "rule_text", ""), getattr(chk, "explanation", ""))
     chk.rule_text = ("obligations: crossing predicates over all weak orderings of (y_j, y_j+1, t) (27 integer assignments cover the 13 orderings), interpolation identity, rank of "
                      "every appended value, fallback guard and value, scalar reduction, the three point modes of threshold_at_metric; non-trivial = uses derived terms")
     chk.explanation = ("invert_pl_function is evaluated symbolically; the crossing mask, the interpolation weight and the appended values are extracted from the parametric loops. "
@@ -79,6 +81,8 @@ def run(ctx, chk, tier):
                        "values (no zero division) and lambda in [0, 1), so each touching sample is attributed to exactly one segment and solutions are strictly increasing; "
                        "z = (1-lambda) x_j + lambda x_j+1 solves the interpolant identically; all values appended to one result list have rank 0; the fallback is "
                        "x[argmin |y - t|] used iff no crossing was recorded. threshold_at_metric feeds one points value to both x and the metric for its three point modes.")
+    if not own:
+        chk.rule_text, chk.explanation = saved
     chk.trusted |= {"numpy.nonzero returns indices in row-major order", "numpy.argmin", "boolean & | on masks"}
     ev = ctx.ev
     f = ctx.fn(Q)
